@@ -881,3 +881,28 @@ func (p *Prog) holdsUp(fn *ssa.Function, blk *ssa.BasicBlock, base ssa.Value, pr
 	}
 	return sites > 0
 }
+
+// onEveryFeasiblePath: every feasible path from the entry of fn to `at` carries,
+// for each predicate, a fact satisfying it. This is the path-sensitive fallback
+// for guards that were merged into compound conditions (`a && b` leaves no
+// single dominating fact for "not b" on the fall-through side) - decided from
+// the edge facts of each enumerated path, contradictory paths pruned.
+func onEveryFeasiblePath(fn *ssa.Function, at ssa.Instruction, preds ...func(Fact) bool) bool {
+	paths, complete := enumPathsAt(fn.Blocks[0], 0, nil, func(i ssa.Instruction) bool { return i == at }, nil, 2000)
+	if !complete {
+		return false
+	}
+	reached := 0
+	for _, pa := range paths {
+		if pa.endWhy != "stop" || infeasible(pa.facts) {
+			continue
+		}
+		reached++
+		for _, pr := range preds {
+			if !anyFact(pa.facts, pr) {
+				return false
+			}
+		}
+	}
+	return reached > 0
+}
